@@ -59,3 +59,12 @@ Fixpoint hist_run (s : pstore) (ops : list pop) : list (list (Z * list Z)) :=
 Definition c12h_agree (h : c12hist) : bool :=
   list_beq (list_beq (fun a b : Z * list Z => (fst a =? fst b) && list_beq Z.eqb (snd a) (snd b)))
            (hist_run (mkPS (fun _ => None) (fun _ => [])) (hh_ops h)) (hh_obs h).
+
+(** source-derived: every string constant of paths_manager.py that mentions the marker is either the marker itself or the
+    marker between two pairs of newlines (what the store writes between members), as in the model *)
+Record c12src := mkC12S { m_exact : list ustring; m_joined : list ustring }.
+Definition c12_marker_agree (c : c12src) : bool :=
+  match m_exact c, m_joined c with
+  | _ :: _, _ :: _ => forallb (ustr_eqb MARKER) (m_exact c) && forallb (ustr_eqb ([NL; NL] ++ MARKER ++ [NL; NL])) (m_joined c)
+  | _, _ => false
+  end.
